@@ -607,6 +607,72 @@ def c17_encoder(case):
                        % (s, out, nodot[p_][0], p_, [[(x.index, x.token) for x in (e.attribution or [])] for e in ents], want))
     return ok()
 
+
+# ---------------------------------------------------------------------------
+# C12 / C11 histories
+
+
+def _api():
+    from . import hist
+    return hist.Api(sf.set_semantic_constraints, sf.get_semantic_constraints, sf.get_preset_constraints,
+                    sf.get_semantic_robust_alphabet, sf.decoder, sf.encoder, sf.DecoderError, sf.EncoderError)
+
+
+_PRESETS0 = None
+
+
+def _presets0():
+    # the documented preset tables (README / docstring of get_preset_constraints), transcribed independently
+    d = {"H": 1, "F": 1, "Cl": 1, "Br": 1, "I": 1, "B": 3, "B+1": 2, "B-1": 4, "O": 2, "O+1": 3, "O-1": 1,
+         "N": 3, "N+1": 4, "N-1": 2, "C": 4, "C+1": 3, "C-1": 3, "P": 5, "P+1": 4, "P-1": 6,
+         "S": 6, "S+1": 5, "S-1": 5, "?": 8}
+    o = dict(d); o.update({"S": 2, "S+1": 3, "S-1": 1, "P": 3, "P+1": 4, "P-1": 2})
+    h = dict(d); h.update({"Cl": 7, "Br": 7, "I": 7, "N": 5})
+    return {"default": d, "octet_rule": o, "hypervalent": h}
+
+
+def c12_history(case):
+    from . import hist
+    reset_table()
+    sf.get_semantic_robust_alphabet.cache_clear() if hasattr(sf.get_semantic_robust_alphabet, "cache_clear") else None
+    api = _api()
+    st = hist.State(_presets0())
+    probe = "[C][=C][#N][C][Branch1][C][F]"
+    try:
+        for op in case["ops"]:
+            before = _dec(probe)
+            cur_before = st.cur
+            hist.apply_op(api, st, op)
+            hist.observe(api, st)
+            if st.cur is cur_before and _dec(probe) != before:
+                st.problem("decoder(%r) changed across %s, which must leave the table unchanged" % (probe, op["op"]))
+            real = [(t, c) for t, c in st.problems if c is True or (c is not False and bool(c))]
+            if real:
+                txt = real[0][0]
+                sig = "C12:" + _hist_sig(txt)
+                return bad(sig, "after %s: %s" % ([_opname(o) for o in st.log], txt))
+        return ok()
+    finally:
+        try:
+            sf.get_semantic_robust_alphabet.cache_clear()
+        except Exception:  # noqa
+            pass
+        reset_table()
+
+
+def _opname(o):
+    return o["op"] + ("(%s)" % (o.get("name") or o.get("which") or o.get("table") or ""))
+
+
+def _hist_sig(txt):
+    for key, sig in (("same object twice (not a private copy)", "alphabet-aliased"), ("robust alphabet contains", "alphabet-content"),
+                     ("robust alphabet lacks", "alphabet-content"), ("preset", "preset-changed"),
+                     ("get_semantic_constraints()", "get-differs"), ("decoder(", "translation-changed"),
+                     ("accepted", "accepted-invalid"), ("rejected", "rejected-valid")):
+        if key in txt:
+            return sig
+    return "other"
+
 # ---------------------------------------------------------------------------
 
 KINDS = {
@@ -622,6 +688,7 @@ KINDS = {
     "robust_string": c07_string,
     "attr_decoder": c17_decoder,
     "attr_encoder": c17_encoder,
+    "config_history": c12_history,
     "state_fn": lemma_state_fn,
     "ring_step": lemma_ring_step,
 }
